@@ -97,6 +97,8 @@ def run(chk):
     f2, c2, t2 = diffrun.campaign(chk, fam, real, proof_ok, detail, None, "C19 sleep under a SIGALRM storm", batch=1, min_ops=1)
     f3, c3, t3 = socket_part(chk, cfg, proof_ok, detail)
     f3 = ipc_part(chk, cfg, proof_ok, driver_ok, detail, thorough) or f3
+    from props import sockets_real
+    f3 = sockets_real.run_real(chk, cfg, "C19", thorough) or f3
     diffrun.conclude(chk, found or f2 or f3, corr or c2 or c3, thm or t2 or t3, proof_ok and driver_ok, detail, "C19 sleep + sockets")
     chk.cov["rule"] = ("scripted native sleep results: every number k<=6 of EINTR results x ambient errno values x final result x boundary msec values (exhaustive), "
                        "random longer scripts; real SIGALRM storms with a handler installed without SA_RESTART (lower bound on elapsed time only); distinct by op line")
